@@ -595,11 +595,14 @@ impl StakeKeeper {
                         });
                     match delegation {
                         Some(delegation) if delegation.amount.is_zero() => {
-                            // an entry that still holds accrued rewards stays: they remain withdrawable
-                            let has_rewards = STAKES
+                            // only an entry that holds nothing goes: a fraction of a token still earns
+                            // rewards and accrued rewards remain withdrawable
+                            let is_empty = STAKES
                                 .may_load(&staking_storage, (&delegator, &validator))?
-                                .map_or(false, |shares| !shares.rewards.is_zero());
-                            if !has_rewards {
+                                .map_or(true, |shares| {
+                                    shares.stake.is_zero() && shares.rewards.is_zero()
+                                });
+                            if is_empty {
                                 STAKES.remove(&mut staking_storage, (&delegator, &validator));
                                 // keep the validator's set of stakers in step with the stakes
                                 if let Some(mut validator_info) =
